@@ -580,6 +580,152 @@ theorem quic_first_match_of_current_config (n : Nat) (cfgs : Nat → List Policy
   cases hr
   exact first_match_dead_index _ _
 
+/-- second line of defence, regenerated from listeners.go on every run: `addState` has its two
+    return paths and neither hands out the bare `context.CancelFunc` — the premise `allWrapped` of
+    the theorems above (`Witness.bare_cancel_consults_closed_config` shows what happens otherwise) -/
+theorem quic_cancel_paths_match_source :
+    Gen.quicAddStateReturns = 2 ∧ Gen.quicAddStateReturnsBareCancel = false := by decide
+
+/-- what holds in EVERY state a history within the protocol can reach -/
+structure QInv (s : QState) (used : List Nat) : Prop where
+  refs_open : s.refs = s.openL.length
+  refs_confs : s.refs = s.confs.length
+  nodup_open : s.openL.Nodup
+  nodup_confs : s.confs.Nodup
+  same : ∀ k, k ∈ s.confs ↔ k ∈ s.openL
+  used_open : ∀ k ∈ s.openL, k ∈ used
+  active_live : s.refs > 0 → s.active ∈ s.openL
+
+theorem qinv_init (used : List Nat) : QInv QState.init used :=
+  { refs_open := rfl, refs_confs := rfl, nodup_open := List.nodup_nil, nodup_confs := List.nodup_nil,
+    same := fun _ => Iff.rfl,
+    used_open := by intro k hk; simp [QState.init] at hk,
+    active_live := by intro h; simp [QState.init] at h }
+
+theorem qinv_open (s : QState) (used : List Nat) (k : Nat) (hi : QInv s used) (hk : k ∉ used) :
+    QInv (openConf s k) (k :: used) := by
+  have hko : k ∉ s.openL := fun hm => hk (hi.used_open k hm)
+  have hkc : k ∉ s.confs := fun hm => hko ((hi.same k).mp hm)
+  unfold openConf
+  split
+  · exact { refs_open := rfl, refs_confs := rfl, nodup_open := by simp, nodup_confs := by simp,
+            same := fun _ => Iff.rfl,
+            used_open := by intro x hx; simp at hx; subst hx; exact List.mem_cons_self ..,
+            active_live := fun _ => List.mem_cons_self .. }
+  · rename_i hr
+    have hcont : s.confs.contains k = false := by simpa using hkc
+    simp only [hcont, Bool.false_eq_true, if_false]
+    exact
+      { refs_open := by simp [hi.refs_open]
+        refs_confs := by simp [hi.refs_confs]
+        nodup_open := List.nodup_cons.mpr ⟨hko, hi.nodup_open⟩
+        nodup_confs := by
+          refine List.nodup_append.mpr ⟨hi.nodup_confs, by simp, ?_⟩
+          intro a ha b hb; simp at hb; subst hb; exact fun e => hkc (e ▸ ha)
+        same := by
+          intro x
+          simp only [List.mem_append, List.mem_cons, List.not_mem_nil, or_false]
+          rw [hi.same x]; exact Or.comm
+        used_open := by
+          intro x hx
+          rcases List.mem_cons.mp hx with e | e
+          · subst e; exact List.mem_cons_self ..
+          · exact List.mem_cons_of_mem _ (hi.used_open x e)
+        active_live := fun _ => List.mem_cons_of_mem _ (hi.active_live (Nat.pos_of_ne_zero hr)) }
+
+theorem qinv_close (s : QState) (used : List Nat) (k : Nat) (hi : QInv s used) (hko : k ∈ s.openL) :
+    QInv (closeConf true s k) used := by
+  have hkc : k ∈ s.confs := (hi.same k).mpr hko
+  unfold closeConf
+  split
+  · exact qinv_init used
+  · rename_i hr
+    simp only [if_true, removeConf]
+    have hlenc : (s.confs.erase k).length = s.refs - 1 := by
+      rw [List.length_erase_of_mem hkc, ← hi.refs_confs]
+    have hleno : (s.openL.erase k).length = s.refs - 1 := by
+      rw [List.length_erase_of_mem hko, ← hi.refs_open]
+    have hsame : ∀ x, x ∈ s.confs.erase k ↔ x ∈ s.openL.erase k := by
+      intro x
+      rw [hi.nodup_confs.mem_erase_iff, hi.nodup_open.mem_erase_iff, hi.same x]
+    exact
+      { refs_open := hleno.symm
+        refs_confs := hlenc.symm
+        nodup_open := hi.nodup_open.erase k
+        nodup_confs := hi.nodup_confs.erase k
+        same := hsame
+        used_open := fun x hx => hi.used_open x (List.mem_of_mem_erase hx)
+        active_live := by
+          intro _
+          show (if s.active = k then (match s.confs.erase k with | c :: _ => c | [] => s.active) else s.active)
+            ∈ s.openL.erase k
+          rw [← hsame]
+          by_cases ha : s.active = k
+          · simp only [ha, if_true]
+            cases hc : s.confs.erase k with
+            | nil => rw [hc] at hlenc; simp at hlenc; omega
+            | cons c cs => exact List.mem_cons_self ..
+          · simp only [ha, if_false]
+            have : s.active ∈ s.confs := (hi.same _).mpr (hi.active_live (by omega))
+            exact hi.nodup_confs.mem_erase_iff.mpr ⟨ha, this⟩ }
+
+theorem qinv_step (s : QState) (used : List Nat) (op : QOp) (s' : QState) (used' : List Nat)
+    (obs : Option (Option Nat)) (hi : QInv s used)
+    (h : qstep allWrapped s used op = some (s', used', obs)) : QInv s' used' := by
+  cases op with
+  | probe =>
+    simp only [qstep, Option.some.injEq, Prod.mk.injEq] at h
+    obtain ⟨rfl, rfl, _⟩ := h; exact hi
+  | «open» k =>
+    simp only [qstep] at h
+    split at h
+    · cases h
+    · rename_i hused
+      split at h
+      · cases h
+      · simp only [Option.some.injEq, Prod.mk.injEq] at h
+        obtain ⟨rfl, rfl, _⟩ := h
+        exact qinv_open s used k hi (by simpa using hused)
+  | close k =>
+    simp only [qstep] at h
+    split at h
+    · cases h
+    · rename_i hopen
+      simp only [Option.some.injEq, Prod.mk.injEq] at h
+      obtain ⟨rfl, rfl, _⟩ := h
+      exact qinv_close s used k hi (by simpa using hopen)
+
+/-- **for EVERY history within the protocol** (not only the reload shape): whenever a QUIC
+    ClientHello can be answered at all, the config whose policy list is consulted is one whose
+    server is still running — never a config that has been closed -/
+theorem quic_active_config_is_live (ops : List QOp) :
+    ∀ (s : QState) (used : List Nat), QInv s used →
+      ∀ sf answers, qrun allWrapped s used ops = some (sf, answers) →
+        sf.refs > 0 → sf.active ∈ sf.openL := by
+  induction ops with
+  | nil => intro s used hi sf answers h; simp only [qrun, Option.some.injEq, Prod.mk.injEq] at h; obtain ⟨rfl, _⟩ := h; exact hi.active_live
+  | cons op ops ih =>
+    intro s used hi sf answers h
+    unfold qrun at h
+    split at h
+    · cases h
+    · rename_i s' used' obs hs
+      split at h
+      · cases h
+      · rename_i sf' answers' hr
+        simp only [Option.some.injEq, Prod.mk.injEq] at h
+        obtain ⟨rfl, _⟩ := h
+        exact ih s' used' (qinv_step s used op s' used' obs hi hs) sf' answers' hr
+
+/-- … in particular for every history of a process, which starts without any listener -/
+theorem quic_active_config_is_live_from_start (ops : List QOp) (sf : QState) (answers : List (Option Nat))
+    (h : qrun allWrapped QState.init [] ops = some (sf, answers)) (hl : sf.refs > 0) :
+    sf.active ∈ sf.openL :=
+  quic_active_config_is_live ops QState.init [] (qinv_init []) sf answers h hl
+
+example : qrun allWrapped QState.init [] [.open 1, .open 2, .close 2, .probe, .open 3, .close 1, .probe] =
+    some (⟨1, [3], 3, [3]⟩, [some 1, some 3]) := by decide
+
 /-! ## F. Caddyfile glue: `tls { client_auth … }` and `servers { strict_sni_host … }` -/
 
 /-- the core of the no-bypass argument, for any way strict checking came to be in effect -/
